@@ -76,11 +76,11 @@ def gen_mesh_struct(rng, small=False):
     shape, dim = rng.choice(SHAPES)
     nv = rng.choice([1, 2, 3, 4, 6, 9]) if not small else rng.choice([2, 3, 4])
     sizes = [nv] + [rng.choice([1, 1, 2, 3, 5]) for _ in range(dim)]
+    has_mesh = rng.random() < 0.93
     m = {"shape": shape, "dim": dim, "sizes": sizes,
          "verts": [[rand_frac(rng) for _ in range(dim)] for _ in range(nv)],
          "topo": {d: [tuple(rng.randrange(nv) for _ in range(nverts(shape, d))) for _ in range(sizes[d])]
                   for d in range(1, dim + 1)}}
-    has_mesh = rng.random() < 0.93
     parts = []
     names = set()
     for _ in range(rng.choice([0, 0, 1, 1, 2, 3])):
@@ -92,7 +92,9 @@ def gen_mesh_struct(rng, small=False):
         nsz = rng.randrange(1, dim + 2)          # how many size entries are given in the file
         psz = [rng.choice([0, 1, 2, 3]) for _ in range(nsz)] + [0] * (dim + 1 - nsz)
         p = {"name": nm, "topo_type": topo_type, "nsz": nsz, "sizes": psz,
-             "maps": {d: [rng.randrange(0, 12) for _ in range(psz[d])] for d in range(dim + 1)},
+             # target indices must be entity indices of the root mesh (MeshNodeLinker validates them); without a
+             # root mesh in the file nothing can be validated
+             "maps": {d: [rng.randrange(0, sizes[d] if has_mesh else 12) for _ in range(psz[d])] for d in range(dim + 1)},
              "topo": {}, "attrs": []}
         if topo_type == "full":
             # no interior zero count below a non-zero one (defect class 6)
@@ -120,9 +122,12 @@ def gen_mesh_struct(rng, small=False):
     for _ in range(rng.choice([0, 0, 1, 2])):
         nr = rng.choice([1, 2, 3, 4])
         ne = rng.choice([1, 2, 4, 7])
-        ranks = list(range(nr))      # every declared rank has its Patch block (class 10 otherwise)
+        ranks = list(range(nr))      # exactly one Patch block per declared rank ...
         rng.shuffle(ranks)
-        patches = {r: rng.sample(range(ne), rng.randrange(0, ne + 1)) for r in ranks}
+        elems = list(range(ne))      # ... which together contain the declared number of elements
+        rng.shuffle(elems)
+        cuts = sorted(rng.randrange(0, ne + 1) for _ in range(nr - 1))
+        patches = {r: elems[a:b] for r, a, b in zip(ranks, [0] + cuts, cuts + [ne])}
         partitions.append({"name": rng.choice(["", rand_name(rng)]), "prio": rng.choice([None, 0, 1, -3, 17]),
                            "level": rng.choice([None, 0, 1, 4]), "nr": nr, "ne": ne, "ranks": ranks, "patches": patches})
     return {"mesh": m if has_mesh else None, "shape": shape, "dim": dim, "parts": parts, "partitions": partitions}
@@ -397,42 +402,20 @@ HAZ_NUM = re.compile(r'(?:size|dim|rank|level)\s*=\s*"([^"]*)"')
 
 
 def hazardous(text):
-    """input-only recognisers of the known-defect classes of FINDINGS_C11.md; returns a K tag ('K' + class digits) or None"""
-    ks = set()
+    """input-only recogniser of the remaining open defect class of the mesh reader (K1: a huge declared count or
+    dimension is allocated unchecked); returns a K tag or None.  Downgrade-only (see `split_tag`)."""
     text = text.translate({7: 32, 8: 32})      # FEAT's white-space set also contains \a and \b
     for m in HAZ_NUM.finditer(text):
         for tok in m.group(1).split():
-            mm = re.match(r"^([+-]?)(\d+)", tok)
-            if mm and (mm.group(1) == "-" or int(mm.group(2)) > 100000):
-                ks.add("1")      # huge / negative declared count or dimension
-            if mm and mm.end() != len(tok):
-                ks.add("5")      # trailing garbage after a number in an attribute
-    if re.search(r'topology\s*=\s*"\s*parent', text):
-        ks.add("3")          # topology="parent": mapping indices are used unchecked
-    # an interior entity count of zero below a non-zero one (root mesh, or mesh part with its own topology):
-    # the missing index set is computed, the count is not
-    for m in re.finditer(r'<Mesh(Part)?\b([^>]*)>', text):
-        if m.group(1) and not re.search(r'topology\s*=\s*"\s*full', m.group(2)):
-            continue
-        mm = re.search(r'size\s*=\s*"([^"]*)"', m.group(2))
-        if not mm:
-            continue
-        nums = [re.match(r"\d+", t) for t in mm.group(1).split()]
-        nums = [int(x.group(0)) if x else 0 for x in nums]
-        if any(nums[i] == 0 and any(n > 0 for n in nums[i + 1:]) for i in range(1, len(nums))):
-            ks.add("6")
-    # fewer Patch blocks than declared ranks (class 10, letter A): PartitionParser::close checks nothing
-    for m in re.finditer(r'<Partition\b([^>]*)>', text):
-        mm = re.search(r'size\s*=\s*"\s*[+]?(\d+)', m.group(1))
-        if not mm:
-            continue
-        rest = text[m.end():]
-        e = rest.find("</Partition")
-        body = "" if m.group(1).rstrip().endswith("/") else (rest if e < 0 else rest[:e])
-        ranks = set(re.findall(r'<Patch\b[^>]*?rank\s*=\s*"\s*[+]?(\d+)', body))
-        if len(ranks) < int(mm.group(1)) <= 100000:
-            ks.add("A")
-    return ("K" + "".join(sorted(ks))) if ks else None
+            mm = re.match(r"^[+]?(\d+)", tok)
+            if mm and int(mm.group(1)) > 100000:
+                return "K1"
+    return None
+
+
+def has_parent_topology(text):
+    """`topology="parent"` mesh parts are not modelled in Lean (model comparison filter only, never a verdict)"""
+    return re.search(r'topology\s*=\s*"\s*parent', text.translate({7: 32, 8: 32})) is not None
 
 
 BLOCK_OPEN = {"verts-open": "verts-close", "topo-open": "topo-close", "map-open": "map-close",
@@ -443,11 +426,11 @@ def block_ranges(lines):
     """all child blocks of a printed file: (kind, first, last, tag) where tag is the expectation for the file with the
     whole block removed: R = the declared size of that dimension is non-zero (or the block is mandatory),
     A = the reader allows the omission (declared size 0), U = legitimate different file (attribute),
-    KA = class 10 (a Partition with fewer Patch blocks than declared ranks is accepted by the reader)"""
+    (a Partition needs exactly one Patch block per declared rank)"""
     out = []
     for i, (role, t) in enumerate(lines):
         if role == "patch-closed":
-            out.append(("patch", i, i, "RKA"))
+            out.append(("patch", i, i, "R"))
             continue
         if role not in BLOCK_OPEN:
             continue
@@ -467,7 +450,7 @@ def block_ranges(lines):
         elif role == "attr-open":
             tag = "U"
         elif role == "patch-open":
-            tag = "RKA"
+            tag = "R"
         out.append((role[:-5], i, j, tag))
     return out
 
@@ -543,13 +526,23 @@ def mutate(rng, L, st):
                 if role == "mesh-open" and k == 0 and delta == 1:
                     tag = "R"
     elif kind == "index-bound":
-        c = idx_of(("topo-line", "patch-line"))
+        c = idx_of(("topo-line", "patch-line", "map-line"))
         if c:
             i = rng.choice(c)
             role, t = lines[i]
             toks = t.split()
             # the bound of the enclosing block
             bound = None
+            if role == "map-line":
+                # the parent's entity count of that dimension, if the file has a root mesh
+                mo = [t2 for r2, t2 in lines if r2 == "mesh-open"]
+                d = None
+                for j in range(i, -1, -1):
+                    if lines[j][0] == "map-open":
+                        d = int(re.search(r'dim\s*=\s*"\s*(\d+)', lines[j][1]).group(1))
+                        break
+                if mo and d is not None:
+                    bound = int(re.search(r'size\s*=\s*"\s*([^"]*?)\s*"', mo[0]).group(1).split()[d])
             for j in range(i, -1, -1):
                 r2, t2 = lines[j]
                 if role == "patch-line" and r2 == "ps-open":
@@ -611,16 +604,10 @@ def mutate(rng, L, st):
                        "float": "1.5", "hex": "0x10", "empty-sign": "-"}[choice]
                 toks[k] = new
                 lines[i] = (role, " ".join(toks))
-                if choice in ("alpha", "empty-sign"):
-                    tag = "R"
-                elif integer and choice == "long":
-                    tag = "R"
-                elif role in ("topo-line", "patch-line") and choice == "neg":
-                    tag = "R"
-                elif integer and choice in ("garbage", "float", "hex"):
-                    tag = "RK5"      # lenient number parsing (trailing garbage ignored)
-                elif role == "map-line" and choice == "neg":
-                    tag = "RK4"      # wraps to 2^64-1, mapping indices are never range-checked
+                if choice in ("alpha", "empty-sign", "garbage", "hex"):
+                    tag = "R"        # not a number / trailing characters (String::parse is strict)
+                elif integer and choice in ("long", "neg", "float"):
+                    tag = "R"        # does not fit Index / negative index / not an integer
                 else:
                     tag = "U"
     elif kind == "xml":
@@ -1028,19 +1015,14 @@ CRASH = ("abort", "timeout", "other-exception", "sanitizer-asan", "sanitizer-ubs
 # Used by `signature` only: the oracle judges every case against the property text; a failure whose kind is not
 # explained by a class recognised in the *input* gets a "c11-new:" signature and is a VIOLATION.
 K_KINDS = {
+    # recognised in arbitrary text: explains crashes only
     "1": ("abort", "timeout", "other-exception", "sanitizer-asan", "sanitizer-ubsan"),
-    "3": ("sanitizer-asan", "abort"),
-    "6": ("rterr",),
-    "4": ("accepted",),
-    "5": ("accepted",),
-    "A": ("accepted",),
-    # class 1 attached BY CONSTRUCTION (the mutator replaced a count / dimension / rank token by a negative or huge
-    # number): besides crashing, the unchecked value may simply be stored (wrapped), so the input is accepted, the
-    # writer's output is rejected by the reader or the second generation differs
+    # class 1 attached BY CONSTRUCTION (the mutator replaced a count / dimension / rank token by a huge number):
+    # besides crashing, the value may simply be stored
     "B": ("abort", "timeout", "other-exception", "sanitizer-asan", "sanitizer-ubsan", "accepted", "rterr", "rtdiff"),
 }
-K_ORDER = "B13645A"
-K_NAME = {"A": "10", "B": "1"}
+K_ORDER = "B1"
+K_NAME = {"B": "1"}
 
 
 def first_content_line(text):
@@ -1174,6 +1156,54 @@ def check_dump_wf(dump):
                 for _ in range(cnt * ni):
                     if int(nxt()) >= nv:
                         return "topology index out of the vertex range"
+        assert nxt() == "NP"
+        for _ in range(int(nxt())):
+            assert nxt() == "P"
+            nxt(); nxt()
+            has_topo = nxt() == "1"
+            psz = []
+            while t[p] != "MAP":
+                psz.append(int(nxt()))
+            nxt()
+            for d in range(len(psz)):
+                cnt = int(nxt())
+                if cnt != psz[d]:
+                    return "mesh part mapping of dimension %d has %d entries, declared %d" % (d, cnt, psz[d])
+                for _ in range(cnt):
+                    i = int(nxt())
+                    if sizes is not None and i >= sizes[d]:
+                        return "mesh part mapping index %d of dimension %d is not an entity of the root mesh (%d)" % (i, d, sizes[d])
+            if has_topo:
+                for d in range(1, len(psz)):
+                    assert nxt() == "T"
+                    dd, cnt, ni = int(nxt()), int(nxt()), int(nxt())
+                    if cnt != psz[d]:
+                        return "mesh part topology %d has %d entities, declared %d" % (d, cnt, psz[d])
+                    for _ in range(cnt * ni):
+                        if int(nxt()) >= psz[0]:
+                            return "mesh part topology index out of the part's vertex range"
+            assert nxt() == "NA"
+            for _ in range(int(nxt())):
+                assert nxt() == "A"
+                nxt()
+                ad, nvals = int(nxt()), int(nxt())
+                if nvals != psz[0]:
+                    return "attribute has %d values, the mesh part has %d vertices" % (nvals, psz[0])
+                p += ad * nvals
+        assert nxt() == "NPS"
+        for _ in range(int(nxt())):
+            assert nxt() == "PS"
+            nxt(); nxt(); nxt()
+            nr, ne = int(nxt()), int(nxt())
+            tot = 0
+            for _ in range(nr):
+                deg = int(nxt())
+                tot += deg
+                for _ in range(deg):
+                    if int(nxt()) >= ne:
+                        return "patch element index out of range"
+            if tot != ne:
+                return "partition declares %d elements but its patches contain %d" % (ne, tot)
         return None
     except (IndexError, ValueError, AssertionError) as e:
         return "unparsable dump (%s)" % e
@@ -1256,8 +1286,6 @@ def oracle_graph(case, out):
                 return "deserialised graph differs"
             assert o[q] == "RT"
             if o[q + 1] != "1":
-                if n_dom == 0 and t[0] == "graph":
-                    STATS["known_defect_inputs"]["K8"] = STATS["known_defect_inputs"].get("K8", 0) + 1
                 return "re-serialising the deserialised graph does not reproduce the bytes"
             return None
         if t[0] == "gbytes":
@@ -1392,8 +1420,6 @@ def signature(case, out, why):
                 return "c11-edge:K" + K_NAME.get(d, d)
     if op == "ini" and why and why.startswith("property map second generation differs [key"):
         return "c11-edge:K7"
-    if op == "graph" and why and why.startswith("re-serialising") and case.split()[2] == "0":
-        return "c11-edge:K8"
     return "c11-new:%s:%s" % (op, (why or "")[:40])
 
 
@@ -1402,7 +1428,9 @@ def model_filter(case):
     if t[0] == "mesh":
         # known-defect classes end in crashes / runtime-decided behaviour on the implementation side; charts are
         # not modelled (tier B)
-        if set(split_tag(t[1])[1]) - set("45A"):
+        if split_tag(t[1])[1]:
+            return False        # huge declared counts: allocation failures are not modelled
+        if has_parent_topology(unhx(t[2])):
             return False
         if "<Chart" in unhx(t[2]):
             return False
@@ -1420,41 +1448,66 @@ def corpus_cases():
         return '<MeshPart name="b" parent="root" %s>\n%s</MeshPart>\n' % (attrs, body)
 
     mp0 = '<Mapping dim="0">\n0\n3\n</Mapping>\n'
+    CE, GE, LE = "ContentError", "GrammarError", "LinkerError"
+    # (expectation, text, documented exception class the input must end with | None)
     c = [
-        ("R", H + M + part('<Mapping dim="3">\n0\n3\n</Mapping>\n') + E),                   # F11: dim == size
-        ("R", H + M + part('<Mapping dim="2">\n0\n</Mapping>\n' + mp0, 'topology="none" size="2 0 0"') + E),
-        ("A", H + M + part(mp0) + E),
-        ("RKB", H + M + part(mp0 + '<Attribute name="p" dim="2147483648">\n1\n1\n</Attribute>\n') + E),
-        ("RKB", H + M + part(mp0 + '<Attribute name="p" dim="99999999999">\n1\n1\n</Attribute>\n') + E),
-        ("RKB", H + M + '<Partition size="-1 4">\n</Partition>\n' + E),
-        ("RKB", H + M + '<Partition size="2 -1">\n</Partition>\n' + E),
-        ("RKB", H + '<Mesh type="conformal:hypercube:2:2" size="99999999999999 4 1">\n</Mesh>\n' + E),
-        ("RKB", H + '<Mesh type="conformal:hypercube:2:2" size="-1 4 1">\n</Mesh>\n' + E),
+        ("R", H + M + part('<Mapping dim="3">\n0\n3\n</Mapping>\n') + E, CE),                  # F11: dim == size
+        ("R", H + M + part('<Mapping dim="2">\n0\n</Mapping>\n' + mp0, 'topology="none" size="2 0 0"') + E, CE),
+        ("A", H + M + part(mp0) + E, None),
+        # former K1 (fixed parts): attribute dimension beyond int, negative partition / mesh sizes
+        ("R", H + M + part(mp0 + '<Attribute name="p" dim="2147483648">\n1\n1\n</Attribute>\n') + E, CE),
+        ("R", H + M + part(mp0 + '<Attribute name="p" dim="99999999999">\n1\n1\n</Attribute>\n') + E, CE),
+        ("R", H + M + '<Partition size="-1 4">\n</Partition>\n' + E, CE),
+        ("R", H + M + '<Partition size="2 -1">\n</Partition>\n' + E, CE),
+        ("R", H + '<Mesh type="conformal:hypercube:2:2" size="-1 4 1">\n</Mesh>\n' + E, CE),
+        # K1 (open): a huge declared count is allocated before a single line is read
+        ("RKB", H + '<Mesh type="conformal:hypercube:2:2" size="99999999999999 4 1">\n</Mesh>\n' + E, None),
+        # former K2: duplicate chart name
         ("R", H + '<Chart name="c">\n<Circle radius="1" midpoint="0 0" />\n</Chart>\n<Chart name="c">\n'
-               '<Circle radius="1" midpoint="0 0" />\n</Chart>\n' + M + E),
-        ("K3", H + M + part(mp0.replace("3", "1") + '<Mapping dim="1">\n7\n</Mapping>\n', 'topology="parent" size="2 1"') + E),
-        ("K6", H + '<Mesh type="conformal:hypercube:2:2" size="4 0 1">\n<Vertices>\n0 0\n1 0\n0 1\n1 1\n</Vertices>\n'
-               '<Topology dim="1">\n</Topology>\n<Topology dim="2">\n0 1 2 3\n</Topology>\n</Mesh>\n' + E),
-        ("A", H + M + '<Partition size="3 1">\n<Patch rank="0" size="0">\n</Patch>\n<Patch rank="1" size="0" />\n'
-              '<Patch rank="2" size="0">\n</Patch>\n</Partition>\n' + E),    # fixed K9: element-free partition, no UB
-        ("UKA", H + M + '<Partition size="3 1">\n<Patch rank="0" size="0">\n</Patch>\n</Partition>\n' + E),
-        ("UKA", H + M + '<Partition size="2 4" />\n' + E),
-        ("RK4", H + M + part('<Mapping dim="0">\n-1\n</Mapping>\n', 'topology="none" size="1"') + E),
-        ("RK5", H + M.replace("0 1 2 3\n", "0 1 2 3x\n") + E),
-        ("RK5", H + M.replace('size="4 4 1"', 'size="4x 4 1"') + E),
+              '<Circle radius="1" midpoint="0 0" />\n</Chart>\n' + M + E, CE),
+        # former K3 / K4: mapping indices are validated against the root mesh (before the topology is deducted)
+        ("R", H + M + part(mp0.replace("3", "1") + '<Mapping dim="1">\n7\n</Mapping>\n', 'topology="parent" size="2 1"') + E, LE),
+        ("R", H + M + part('<Mapping dim="0">\n0\n4\n</Mapping>\n') + E, LE),
+        ("R", H + M + part(mp0 + '<Mapping dim="2">\n1\n</Mapping>\n', 'topology="none" size="2 0 1"') + E, LE),
+        ("A", H + M + part(mp0 + '<Mapping dim="2">\n0\n</Mapping>\n', 'topology="none" size="2 0 1"') + E, None),
+        ("A", H + part('<Mapping dim="0">\n0\n400\n</Mapping>\n') + E, None),     # no root mesh: nothing to validate
+        ("R", H + M + part('<Mapping dim="0">\n-1\n</Mapping>\n', 'topology="none" size="1"') + E, CE),
+        # former K5: numbers with trailing characters
+        ("R", H + M.replace("0 1 2 3\n", "0 1 2 3x\n") + E, CE),
+        ("R", H + M.replace('size="4 4 1"', 'size="4x 4 1"') + E, CE),
+        ("R", H + M.replace("1 0\n", "1.5x 0\n", 1) + E, CE),
+        ("R", H + M.replace('<Topology dim="1">', '<Topology dim="1.0">') + E, CE),
+        # former K6: no entities of a dimension below the highest one
+        ("R", H + '<Mesh type="conformal:hypercube:2:2" size="4 0 1">\n<Vertices>\n0 0\n1 0\n0 1\n1 1\n</Vertices>\n'
+              '<Topology dim="1">\n</Topology>\n<Topology dim="2">\n0 1 2 3\n</Topology>\n</Mesh>\n' + E, CE),
+        ("R", H + M + part('<Mapping dim="0">\n0\n</Mapping>\n<Mapping dim="2">\n0\n</Mapping>\n'
+                           '<Topology dim="2">\n0 0 0 0\n</Topology>\n', 'topology="full" size="1 0 1"') + E, CE),
+        # former K9: element-free partition (valid)
+        ("A", H + M + '<Partition size="3 0">\n<Patch rank="0" size="0">\n</Patch>\n<Patch rank="1" size="0" />\n'
+              '<Patch rank="2" size="0">\n</Patch>\n</Partition>\n' + E, None),
+        # former K10: one patch per rank, declared number of elements
+        ("R", H + M + '<Partition size="3 1">\n<Patch rank="0" size="1">\n0\n</Patch>\n</Partition>\n' + E, GE),
+        ("R", H + M + '<Partition size="2 4" />\n' + E, GE),
+        ("R", H + M + '<Partition size="2 2">\n<Patch rank="0" size="1">\n0\n</Patch>\n<Patch rank="0" size="1">\n1\n</Patch>\n'
+              '</Partition>\n' + E, CE),
+        ("R", H + M + '<Partition size="2 3">\n<Patch rank="0" size="1">\n0\n</Patch>\n<Patch rank="1" size="1">\n1\n</Patch>\n'
+              '</Partition>\n' + E, GE),
+        ("A", H + M + '<Partition size="2 2">\n<Patch rank="1" size="1">\n0\n</Patch>\n<Patch rank="0" size="1">\n1\n</Patch>\n'
+              '</Partition>\n' + E, None),
         ("A", H + '<Chart name="c">\n<Circle radius="1" midpoint="0 0" domain="0 1" />\n</Chart>\n' + M +
-              part(mp0, 'chart="c" topology="none" size="2"') + E),
-        ("R", H + M + part(mp0, 'chart="nochart" topology="none" size="2"') + E),
-        ("A", '<FeatMeshFile version="1" mesh="conformal:hypercube:2:2">\n' + E),
-        ("R", ""),
-        ("R", "\n\n"),
-        ("R", "<FeatMeshFile version=\"1\" mesh=\"conformal:hypercube:2:2\">"),
+              part(mp0, 'chart="c" topology="none" size="2"') + E, None),
+        ("R", H + M + part(mp0, 'chart="nochart" topology="none" size="2"') + E, LE),
+        ("A", '<FeatMeshFile version="1" mesh="conformal:hypercube:2:2">\n' + E, None),
+        ("R", "", None),
+        ("R", "\n\n", None),
+        ("R", "<FeatMeshFile version=\"1\" mesh=\"conformal:hypercube:2:2\">", None),
     ]
-    cases = ["mesh %s %s" % (tag, hx(txt)) for tag, txt in c]
-    # fixed K2: a duplicate chart name is now reported with the documented exception
-    for tag, txt in c:
-        if txt.count('<Chart name="c">') == 2:
-            EXPECT_CLASS["mesh %s %s" % (tag, hx(txt))] = "ContentError"
+    cases = []
+    for tag, txt, cls in c:
+        case = "mesh %s %s" % (tag, hx(txt))
+        cases.append(case)
+        if cls is not None:
+            EXPECT_CLASS[case] = cls
     cases += ["graphdef", "graph 3 0", "graph 0 0", "graph 3 2 1 0 2 1 2",
               "ini 1 " + hx("[a = x&\nb]\n"), "ini 1 " + hx("k = v&\n"), "ini 1 " + hx("}\n"), "ini 1 " + hx("")]
     return cases
@@ -1482,7 +1535,7 @@ def sweep_struct(shape, dim, zero_dim=None, small=False):
                 if zero_dim == 0:
                     psz = [0] * (dim + 1)
         p = {"name": nm, "topo_type": tt, "nsz": dim + 1, "sizes": psz,
-             "maps": {d: [(d + i) % 4 for i in range(psz[d])] for d in range(dim + 1)}, "topo": {},
+             "maps": {d: [(d + i) % sizes[d] for i in range(psz[d])] for d in range(dim + 1)}, "topo": {},
              "attrs": [{"name": "a", "dim": 2, "vals": [[Fraction(i), Fraction(1, 3)] for i in range(psz[0])]}]}
         if tt == "full":
             p["topo"] = {d: [tuple((k + j) % psz[0] for j in range(nverts(shape, d))) for k in range(psz[d])]
